@@ -3,7 +3,7 @@
 from ..campaign import Result
 from .. import strategies as S
 from ..trace import NORMAL
-from ._rt import run_case, shape_labels, RT_ASSUMPTIONS, phase_oracle, context
+from ._rt import library_job_anomalies, run_case, shape_labels, RT_ASSUMPTIONS, phase_oracle, context
 
 ID = 'C09'
 LEVEL = 'exploration'
@@ -41,6 +41,7 @@ def evaluate_one(case):
     res = Result()
     trace, ix = run_case(case, run_on=False)
     shape_labels(case, trace, res)
+    library_job_anomalies(trace, res, 'C09')
     if not ix.terminated():
         res.inconclusive = 'nonterminating'
     hits = phase_oracle(ID, 'success', ix, trace, res)
